@@ -19,6 +19,6 @@ j = i
 while j < len(s) and s[j] == "|":
     j = (s.index("\n", j) + 1) if "\n" in s[j:] else len(s)
 s = s[:i] + "\n".join(rows) + "\n" + s[j:]
-s = re.sub(r"holds \d+ changes written by independent sub-agents \(\w+ waves\)", "holds %d changes written by independent sub-agents (sixteen waves)" % len(names), s)
+s = re.sub(r"holds \d+ changes written by independent sub-agents \(\w+ waves\)", "holds %d changes written by independent sub-agents (seventeen waves)" % len(names), s)
 open(p, "w", encoding="utf-8").write(s)
 print(len(names), "rows")
